@@ -40,6 +40,7 @@ static int g_mstyle;
 static int nd_of(const family *F, int s) { return F->kind[s] == 'd' ? 2 : 1; }
 static size_t src_val(const family *F, int e, int ki, uint8_t *out) {
 	int s = e / 2, d = e % 2;
+	if (F->mstyle == 2 && s == 0 && d == 0) return 0;      /* style 2: the first source's values are zero-length ("nothing buffered" and "an empty value buffered" must not be confused; seed R7-C05) */
 	if (F->mstyle == 1) { size_t n = (size_t) 1 << (2 * s + 1 - d); memset(out, 'x', n); if (F->kind[s] == 'm') { /* multi-block: keep entries apart with a long value */ } return n; }
 	/* the letter decides the dupsort order before the source number does: the two duplicates of a 'd' source (z, a) enclose the values
 	 * of ordinary sources (m), so that equal keys from different sources interleave under dupsort */
@@ -420,6 +421,21 @@ static void do_bfs(void) {
 		uint64_t sig = vh_mix(mg, si); for (int i = 0; i < NU; i++) sig = vh_mix(sig, __builtin_popcount(srcs_with(&S.F, i))); for (int s = 0; s < S.F.k; s++) sig = vh_mix(sig, S.F.kind[s]);
 		vh_sig(sig);
 		if (vh_too_many()) return;
+	}
+	/* the same search with zero-length values in the first source (no merge function, so values pass through unchanged): plain iterator and one range */
+	if (S.F.mask[0]) {
+		family_images_free(&S); S.F.mstyle = 2; family_images(&S);
+		for (int si = 0; si < NSPEC; si++) {
+			if (si != 0 && SPECS[si].kind != K_RANGE) continue;
+			S.F.merge = 0; S.F.dupsort = 0; S.F.failkey = -1; S.F.failnth = 0; S.sp = SPECS[si];
+			vh_case_begin(render, &S);
+			BS.nops = 0;
+			if (g_treedepth) bfs_tree(&BS, g_treedepth); else bfs_run(&BS);
+			vh_case_end();
+			VH_COUNT("searches_with_empty_values", 1);
+			if (si != 0) break;
+		}
+		family_images_free(&S); S.F.mstyle = 0; family_images(&S);
 	}
 }
 /* one-shot lookups: every (kind, a, b) over the target set drained once */
